@@ -7,7 +7,7 @@ def run(rep, kf, tier, seed):
     run_models(rep, kf, tier, seed, "C14")
     run_models(rep, kf, tier, seed, "C14", config={"literal_enums": True}, tag="+literal_enums")
     from props.common import run_bounded
-    run_bounded(rep, kf, "C14", ["enum_values"], tier)
+    run_bounded(rep, kf, "C14", ["enum_values", "enum_default"], tier)
     rep.trusted.extend(["CPython semantics of the supported subset as encoded in pyvc.symexec",
                         "enum.Enum(value) lookup: the member with that value or ValueError (symbolic construct)"]
                        + ["assumed library contract: " + t for t in libmodels.TRUSTED])
